@@ -26,4 +26,9 @@ Inductive tok :=
 | TTrackSync | TPlayFromHere | TComment
 | TTime (args : list Z) | TPlayFrom (args : list Z) | TTimeSignature (args : list Z) | TMeasureShift (arg : Z) | TTempo (arg : Z)
 | TVAdd (arg : Z) | TQAdd (arg : Z) | TTieMode (args : list Z)
-| TValue (name : list ch) (args : option (list (option marg))) (lineno : Z).
+| TValue (name : list ch) (args : option (list (option marg))) (lineno : Z)
+(* controllers and bends with literal arguments (appended so that earlier case analyses keep their order) *)
+| TCC (no v : Z)                                   (* ControlChange: y<no>,<v>  CC(no,v)  M(v) V(v) ... *)
+| TPitchBend (big v : Z)                           (* PitchBend: value_i = 1 for PB / PitchBend, 0 for p *)
+| TRpnCmd (nrpn : bool) (msb lsb v : Z)            (* RPNCommand / NRPNCommand: BR(v) FineTune(v) VibratoRate(v) ... *)
+| TRpnDirect (nrpn : bool) (args : list Z).        (* RPN(a,b,c) / NRPN(a,b,c) *)
